@@ -233,7 +233,8 @@ def gen_loop(tier, seed):
     import hbgen
     rng = Rng(seed * 41 + 1717)
     n = 48 if tier == "quick" else 600
-    return hbgen.tx_with_data_queued_cases(rng) + [hbgen.session(rng, "h%d" % i, h_choices=(400, 400, 300, 0), stall_bias=(i % 3 == 2), steps=(4, 9) if i % 3 != 2 else (6, 11)) for i in range(n)]
+    closing = [hbgen.session(rng, "hc%d" % i, force_close=rng.choice(["client", "client", "server"]), h_choices=(400, 300), steps=(4, 7)) for i in range(8 if tier == "quick" else 100)]
+    return hbgen.tx_with_data_queued_cases(rng) + hbgen.blocked_then_silent_cases(rng) + closing + [hbgen.session(rng, "h%d" % i, h_choices=(400, 400, 300, 0), stall_bias=(i % 3 == 2), steps=(4, 9) if i % 3 != 2 else (6, 11)) for i in range(n)]
 
 
 def suites(tier, seed):
